@@ -37,7 +37,8 @@ def defaultThreads (cfg : Cfg) : Nat := if cfg.usePm then countMask cfg else num
 
 /-- `bit_and(init_core_affinity_mask_from_core(c), proc_mask)`: core `c` has a PU in the mask -/
 def coreInPm (cfg : Cfg) (c : Nat) : Bool :=
-  decide (0 < sumTo (cfg.t.pus c) (fun p => if cfg.pm (base cfg.t c + p) then 1 else 0))
+  !cfg.t.noCoreObjs &&
+    decide (0 < sumTo (cfg.t.pus c) (fun p => if cfg.pm (base cfg.t c + p) then 1 else 0))
 
 /-- `get_number_of_default_cores(use_process_mask)` -/
 def defaultCores (cfg : Cfg) : Nat :=
